@@ -71,6 +71,20 @@ def _opname(cond):
     return "eq"
 
 
+def _int_twin(cond):
+    def tw(v):
+        if isinstance(v, float) and v == v and abs(v) < 2**24 and v == int(v) and not (v == 0 and str(v).startswith("-")):
+            return int(v)
+        return v
+
+    if isinstance(cond, tuple) and len(cond) == 2:
+        op, operand = cond
+        if isinstance(operand, (list, tuple)):
+            return (op, type(operand)(tw(x) for x in operand))
+        return (op, tw(operand))
+    return tw(cond)
+
+
 @st.composite
 def other_literal(draw, typ):
     """A literal of a different kind than the column (cross-numeric or incomparable)."""
@@ -96,6 +110,29 @@ def case_strategy(draw):
             flt[f["name"]] = (op, [lit] if op in ("in", "not_in") else lit)
         else:
             flt[f["name"]] = draw(tbl.condition_for(f["type"], vals))
+            if f["type"] in ("float", "double") and draw(st.booleans()):
+                # the same number written as an int literal (score != 5 on a double column): must select exactly what 5.0 selects
+                flt[f["name"]] = _int_twin(flt[f["name"]])
+    fl = [f for f in fields if f["type"] in ("float", "double")]
+    if fl and files and draw(st.integers(0, 5)) == 0:
+        # a file whose float column holds ONE distinct number plus NaN / NULL rows (its min/max statistics collapse to that number and are
+        # blind to the NaN), filtered by that very number: statistics-based skipping of the file or row group must not lose the NaN row
+        f = draw(st.sampled_from(fl))
+        v = float(draw(st.sampled_from([5, 0, 1, -3, 1000])))
+        fi = draw(st.integers(0, len(files) - 1))
+        shape = draw(st.lists(st.sampled_from(["v", "nan", "null"]), min_size=0, max_size=3))
+        rows_f = list(files[fi])
+        while len(rows_f) < 2 + len(shape):
+            rows_f.append(dict(draw(tbl.rows_for(fields, 1, 1, small=True))[0]))
+        for r_, kind in zip(rows_f, ["v", "nan"] + shape):
+            r_[f["name"]] = {"v": v, "nan": float("nan"), "null": None}[kind]
+        for r_ in rows_f[2 + len(shape):]:
+            r_[f["name"]] = draw(st.sampled_from([v, None, float("nan")]))
+        files[fi] = rows_f
+        lit = int(v) if draw(st.booleans()) else v
+        op = draw(st.sampled_from(["!=", "not_in", "==", "in", "<", ">=", "<=", ">"]))
+        flt = dict(flt)
+        flt[f["name"]] = (op, [lit] + ([None] if draw(st.booleans()) else []) if op in ("in", "not_in") else lit)
     names = [f["name"] for f in fields]
     cols_proj = draw(st.one_of(st.none(), st.lists(st.sampled_from(names), min_size=1, max_size=len(names), unique=True)))
     # a second, different scan that OVERLAPS the first on the same handle (two lazy generators consumed alternately)
